@@ -50,9 +50,9 @@ type tSummary struct {
 	Replayed    []string         `json:"replayed,omitempty"`
 	ReplayFails []string         `json:"replay_fails,omitempty"`
 
-	seen      map[string]bool
-	failed    bool
-	mu        sync.Mutex
+	seen   map[string]bool
+	failed bool
+	mu     sync.Mutex
 }
 
 func newSummary(name string) *tSummary {
